@@ -132,7 +132,7 @@ func c07Check(dec config.DecoderType, file string, want []c07Entry, passes int) 
 }
 
 func HarnessC07Uri() {
-	E := int(vConcretize(vNondetInt("E", 1, 2)))
+	E := int(vConcretize(vNondetInt("E", 1, vHi(2, 3))))
 	var want []c07Entry
 	file := ""
 	if vNondetBool("blankFirst") {
@@ -172,7 +172,7 @@ func HarnessC07Uri() {
 		}
 		want = append(want, e)
 	}
-	c07Check(config.DecoderURI, file, want, 2)
+	c07Check(config.DecoderURI, file, want, 3)
 }
 
 func HarnessC07Uripost() {
@@ -216,7 +216,7 @@ func HarnessC07Uripost() {
 		}
 		want = append(want, e)
 	}
-	c07Check(config.DecoderURIPost, file, want, 2)
+	c07Check(config.DecoderURIPost, file, want, 3)
 }
 
 func HarnessC07Raw() {
